@@ -16,6 +16,9 @@ import CSD.Model.SourceText
 import CSD.Lemmas.PFCIter
 import CSD.Lemmas.LogSeq
 import CSD.Lemmas.Dups
+import CSD.Lemmas.FM19
+import CSD.Lemmas.PFCRange
+import CSD.Lemmas.RPFC10
 
 namespace CSD.Props.C07
 open CSD CSD.PFC
@@ -116,5 +119,24 @@ theorem models_match_source_text :
     Generated.body_LogSequence_get_field = SourceText.body_LogSequence_get_field ∧
     Generated.body_LogSequence_set_field = SourceText.body_LogSequence_set_field ∧
     Generated.body_LogSequence_vector_ctor = SourceText.body_LogSequence_vector_ctor := ⟨rfl, rfl, rfl, rfl, rfl, rfl, rfl, rfl, rfl⟩
+
+/-- **The string iterators stay inside their structures.** In the models a read outside the text, the symbol
+stream, the result array or the index is the result `none`; for every valid dictionary and every ID range the
+range scans of PFC (any bucket size) and RPFC (any storing grammar) — opened at any in-bucket offset, across
+bucket boundaries — and the duplicate-skipping iterator of FMINDEX `extractSubstr` (any suffix array, any sampling
+step > 0) return `some`: no such read happens. -/
+theorem string_iterators_in_bounds {S : List Str} (hv : validDict S = true) (b : Nat)
+    {dR : RPFC.D} (hR : RPFC.Stores S dR)
+    {L : List FM.Row} {dF : FM.Dict} (hF : FM.DictOK S L dF) (hFS : FM.BuiltS (FM.mkText S) L dF.ix)
+    (hml : ∀ s ∈ S, s.length < dF.maxlength)
+    (left right : Nat) (h1 : 1 ≤ left) (h2 : left ≤ right) (h3 : right ≤ S.length)
+    (p : Str) (hp : p.all validByte = true) (hne : p ≠ []) :
+    (PFC.scanRange (PFC.build b S) left right).isSome ∧ (RPFC.scanRange dR left right).isSome ∧
+    (dF.extractSubstr p).isSome := by
+  obtain ⟨_, hn, _, _⟩ := PFC.validDict_facts hv
+  refine ⟨?_, ?_, ?_⟩
+  · rw [PFC.scanRange_build b S hn left right h1 h2 h3]; rfl
+  · rw [RPFC.scanRange_stores hR left right h1 h2 h3]; rfl
+  · rw [FM.extractSubstr_spec hv hF hFS hml p hp hne]; rfl
 
 end CSD.Props.C07
